@@ -3,7 +3,7 @@
 # stored in /verif/seeded (stored as <ID>-<TAG>mN); only for properties whose check exists.
 base=${1:-/tmp/wt}; tag=${2:-}
 cd /verif
-for d in $base/C*/mutants/m*; do
+for d in $base/${ONLY:-C*}/mutants/m*; do
   [ -f "$d/patch.diff" ] && [ -f "$d/demo.py" ] && [ -f "$d/meta.json" ] || continue
   prop=$(echo $d | sed -E 's|.*/(C[0-9]+)/mutants/(m[0-9]+)|\1|'); mn=$(basename $d)
   id=$prop-$tag$mn
